@@ -39,6 +39,8 @@ type Program struct {
 	externs   map[string]*Contract // extern contracts by full name e.g. "fmt.Errorf"
 	modCache  map[*ssa.Function]*modInfo
 	ifaceContracts map[string]*Contract
+	heapVars  map[*Term]heapVarInfo
+	heapTypes map[string]types.Type
 }
 
 const modulePath = "github.com/evolbioinfo/goalign"
